@@ -247,7 +247,17 @@ pub fn inject(c: &mut Choices, p: &Program, kind: usize) -> Option<(Program, Def
             // R: a cycle of length 1..4 among inline functions, reachable from main
             let len = c.range(1, 4);
             let names: Vec<String> = (0..len).map(|i| format!("inlR_{i}")).collect();
-            let through = c.pick(3);
+            let through = c.pick(6);
+            if through == 3 || through == 4 {
+                // a helper with a rest parameter / an ordinary function to pass the call through
+                q.helpers.push(Helper::Defun {
+                    name: "viaR_".into(),
+                    inline: through == 3 && c.chance(128),
+                    params: Pat::Cons(Box::new(Pat::Name("VA".into(), Ty::Int)), Box::new(Pat::Name("VB".into(), Ty::Any))),
+                    body: Expr::Var("VA".into()),
+                    ret: Ty::Int,
+                });
+            }
             for i in 0..len {
                 let next = names[(i + 1) % len].clone();
                 let call = Expr::Call {
@@ -258,10 +268,29 @@ pub fn inject(c: &mut Choices, p: &Program, kind: usize) -> Option<(Program, Def
                 let body = match through {
                     0 => Expr::Prim("+", vec![Expr::Int(BigInt::from(1)), call]),
                     1 => Expr::If(Box::new(Expr::Var("XR".into())), Box::new(call), Box::new(Expr::Int(BigInt::from(0)))),
-                    _ => Expr::Let {
+                    2 => Expr::Let {
                         star: false,
                         binds: vec![("LR".into(), call)],
                         body: Box::new(Expr::Var("LR".into())),
+                    },
+                    // the back edge sits in the &rest tail of another call
+                    3 => Expr::Call {
+                        f: "viaR_".into(),
+                        args: vec![Expr::Var("XR".into())],
+                        rest: Some(Box::new(call)),
+                    },
+                    // ... in an ordinary argument of another function's call
+                    4 => Expr::Call {
+                        f: "viaR_".into(),
+                        args: vec![call, Expr::Int(BigInt::from(0))],
+                        rest: None,
+                    },
+                    // ... in an assign binding
+                    _ => Expr::Assign {
+                        hint: 0,
+                        binds: vec![(Pat::Name("AR".into(), Ty::Int), call)],
+                        order: vec![0],
+                        body: Box::new(Expr::Var("AR".into())),
                     },
                 };
                 q.helpers.push(Helper::Defun {
@@ -287,7 +316,7 @@ pub fn inject(c: &mut Choices, p: &Program, kind: usize) -> Option<(Program, Def
                 q,
                 Defect {
                     kind: "inline-recursion",
-                    site: format!("cycle-length-{len}-through-{}", ["operand", "if-branch", "let-binding"][through]),
+                    site: format!("cycle-length-{len}-through-{}", ["operand", "if-branch", "let-binding", "rest-tail", "call-argument", "assign-binding"][through]),
                     must_name: names,
                 },
             ))
@@ -300,7 +329,57 @@ pub fn inject(c: &mut Choices, p: &Program, kind: usize) -> Option<(Program, Def
             let n = |s: &str| Pat::Name(s.to_string(), Ty::Int);
             let (binds, must): (Vec<(Pat, Expr)>, Vec<String>) = match which {
                 0 => (vec![(n("AA"), Expr::Prim("+", vec![v("BB"), one()])), (n("BB"), Expr::Prim("+", vec![v("AA"), one()]))], vec![]),
-                1 => (vec![(n("AA"), one()), (n("AA"), Expr::Int(BigInt::from(2)))], vec!["AA".into()]),
+                1 => {
+                    // 2..5 bindings forming a valid chain in a random source order, then one of
+                    // them renamed to an earlier one's name (adjacent or not, plain or inside a
+                    // destructuring pattern)
+                    let k = c.range(2, 5);
+                    let names: Vec<String> = (0..k).map(|i| format!("AA{i}")).collect();
+                    let mut bs: Vec<(Pat, Expr)> = (0..k)
+                        .map(|i| {
+                            let val = if i == 0 || c.chance(100) { one() } else { Expr::Prim("+", vec![v(&names[c.pick(i)]), one()]) };
+                            if c.chance(60) {
+                                (Pat::Cons(Box::new(n(&names[i])), Box::new(n(&format!("AB{i}")))), Expr::Prim("c", vec![val, one()]))
+                            } else {
+                                (n(&names[i]), val)
+                            }
+                        })
+                        .collect();
+                    for i in (1..bs.len()).rev() {
+                        let j = c.pick(i + 1);
+                        bs.swap(i, j);
+                    }
+                    let a = c.pick(k - 1);
+                    let b = a + 1 + c.pick(k - 1 - a);
+                    let first_name = |p: &Pat| match p {
+                        Pat::Cons(x, _) => match &**x {
+                            Pat::Name(s, _) => s.clone(),
+                            _ => String::new(),
+                        },
+                        Pat::Name(s, _) => s.clone(),
+                        _ => String::new(),
+                    };
+                    let dup = first_name(&bs[a].0);
+                    // nothing may refer to the name that disappears
+                    let gone = first_name(&bs[b].0);
+                    fn subst(e: &Expr, from: &str, to: &str) -> Expr {
+                        match e {
+                            Expr::Var(x) if x == from => Expr::Var(to.to_string()),
+                            Expr::Prim(o, args) => Expr::Prim(o, args.iter().map(|a| subst(a, from, to)).collect()),
+                            other => other.clone(),
+                        }
+                    }
+                    for x in bs.iter_mut() {
+                        x.1 = subst(&x.1, &gone, &dup);
+                    }
+                    bs[b].0 = match &bs[b].0 {
+                        Pat::Cons(_, y) => Pat::Cons(Box::new(n(&dup)), y.clone()),
+                        _ => n(&dup),
+                    };
+                    // the form's body refers to AA: make the duplicated name that one
+                    let bs: Vec<(Pat, Expr)> = bs.into_iter().map(|(p, e)| (rename_pat(&p, &dup, "AA"), subst(&e, &dup, "AA"))).collect();
+                    (bs, vec!["AA".into()])
+                }
                 2 => (
                     vec![
                         (Pat::Cons(Box::new(n("AA")), Box::new(n("BB"))), Expr::Prim("c", vec![one(), one()])),
@@ -308,10 +387,21 @@ pub fn inject(c: &mut Choices, p: &Program, kind: usize) -> Option<(Program, Def
                     ],
                     vec!["BB".into()],
                 ),
-                _ => (
-                    vec![(n("AA"), Expr::Prim("+", vec![v("CC"), one()])), (n("BB"), Expr::Prim("+", vec![v("AA"), one()])), (n("CC"), Expr::Prim("+", vec![v("BB"), one()]))],
-                    vec![],
-                ),
+                _ => {
+                    // a dependency cycle of length 2..5 in a random source order, with extra
+                    // well-founded bindings around it
+                    let k = c.range(2, 5);
+                    let names: Vec<String> = (0..k).map(|i| if i == 0 { "AA".to_string() } else { format!("CY{i}") }).collect();
+                    let mut bs: Vec<(Pat, Expr)> = (0..k).map(|i| (n(&names[i]), Expr::Prim("+", vec![v(&names[(i + 1) % k]), one()]))).collect();
+                    for x in 0..c.range(0, 2) {
+                        bs.push((n(&format!("OK{x}")), one()));
+                    }
+                    for i in (1..bs.len()).rev() {
+                        let j = c.pick(i + 1);
+                        bs.swap(i, j);
+                    }
+                    (bs, vec![])
+                }
             };
             let order = (0..binds.len()).collect();
             let bad = Expr::Assign {
@@ -350,6 +440,15 @@ pub fn inject(c: &mut Choices, p: &Program, kind: usize) -> Option<(Program, Def
                 },
             ))
         }
+    }
+}
+
+fn rename_pat(p: &Pat, from: &str, to: &str) -> Pat {
+    match p {
+        Pat::Name(s, t) if s == from => Pat::Name(to.to_string(), t.clone()),
+        Pat::Cons(a, b) => Pat::Cons(Box::new(rename_pat(a, from, to)), Box::new(rename_pat(b, from, to))),
+        Pat::At(s, inner) => Pat::At(if s == from { to.to_string() } else { s.clone() }, Box::new(rename_pat(inner, from, to))),
+        other => other.clone(),
     }
 }
 
